@@ -121,6 +121,22 @@ CLAIMED = {
              "reads; Python %-formatting modelled by format_ok.",
         technique="Coq proof over translator-extracted static facts (vm_compute) + small model of parseError + "
                   "differential strict/non-strict run of the real parser"),
+    "C11": dict(
+        category="proof",
+        text="Theorems: for EVERY tree the generic non-recursive traversal of treewalkers/base.py over firstChild/"
+             "nextSibling/parentNode (zipper cursor = the DOM walker), started from an element, a document or a "
+             "fragment, emits exactly the recursive specification walk t (induction over trees with an explicit fuel "
+             "bound 2*size+4); the text split yields <=3 tokens that partition the text into ASCII-whitespace / "
+             "non-whitespace runs; void elements only as EmptyTag; the Lint model accepts the walk of every "
+             "well-named forest; rebuilding from the stream returns the forest with adjacent text merged. The "
+             "ElementTree cursor (element, key, parents, flag) is modelled over the .text/.tail representation and "
+             "tied by exact-agreement correspondence (3000 trees/run, API-built and parsed, both walkers compared) "
+             "but its equivalence with walk is PARTIAL (not yet a theorem). One known finding (event-source), one fix "
+             "(lint typo).",
+        design_ref="DESIGN.md 3 C11, A.4",
+        note="minidom/ElementTree modelled as lists; hand models pinned by AST hash.",
+        technique="Coq proof (structural induction over trees, fuelled traversal with continuation lemma) + "
+                  "differential correspondence on API-built and parsed trees"),
 }
 
 PENDING_REASON = "not yet built in this round (planned: Coq model + theorems per DESIGN.md section 3); no check is registered, so nothing is claimed"
